@@ -34,7 +34,7 @@ EXPLANATION = (
     "insertions only through a fresh id, NextFileId returns maxFileId = maxFileId + 1; (R5) order of reads and destruction in "
     "Delete; (R6) stores into GenNodeArray::_buf are within _bufsize given the guards and Check() calls that dominate them; "
     "(R7) writers of _count; (R8) shape of the look-up functions. "
-    "Not decided: the invariant over operation histories itself (count/order/look-up exactness after arbitrary sequences) — "
+    "(R3b) NextFileId never returns the value Append() reads as \"no id assigned\" (interval over the constant writers of maxFileId). (R5b) nothing that the id / slot getters read through the node is overwritten on the node before Delete() calls them. Not decided: the invariant over operation histories itself (count/order/look-up exactness after arbitrary sequences) — "
     "that quantifies over run-time histories; these rules only show that each operation keeps the two containers, the cached "
     "indices and the high-water mark in step.")
 
